@@ -123,7 +123,13 @@ func (p *Proxy) sinceRewrite(dir string, raw json.RawMessage) (json.RawMessage, 
 			return raw, nil // not a monitor_cond_since monitor
 		}
 		noteRows(m, params[1], false)
-		m.last = p.freshID()
+		// the notifications of one transaction (sent back to back, one per monitor) carry the same id
+		if p.groupID == "" || p.groupMons[string(params[0])] {
+			p.groupID = p.freshID()
+			p.groupMons = map[string]bool{}
+		}
+		p.groupMons[string(params[0])] = true
+		m.last = p.groupID
 		idj, _ := json.Marshal(m.last)
 		np, _ := json.Marshal([]json.RawMessage{params[0], idj, params[1]})
 		msg["method"] = json.RawMessage(`"update3"`)
@@ -131,6 +137,8 @@ func (p *Proxy) sinceRewrite(dir string, raw json.RawMessage) (json.RawMessage, 
 		out, _ := json.Marshal(msg)
 		return out, nil
 	}
+	// any other message from the server ends the run of notifications of one transaction
+	p.groupID = ""
 	if method != "" {
 		return raw, nil
 	}
